@@ -185,7 +185,43 @@ def op_revise_unit(req):
     return {"ok": True, "results": out}
 
 
-OPS = {"pipeline": op_pipeline, "preprocess": op_preprocess, "revise.unit": op_revise_unit}
+def op_guards_unit(req):
+    """the real guard functions on plain arguments: does each accept (True) or raise (False)?"""
+    import logging, types
+    import pandas as pd
+    from transposon.merge_data import MergeData
+    from transposon.preprocess import PreProcessor
+    from transposon import check_strand
+    log = logging.getLogger("vh")
+    log.setLevel(logging.CRITICAL + 1)
+
+    def accepts(f):
+        try:
+            f()
+            return True
+        except (ValueError, TypeError, AttributeError):
+            return False
+    out = {"ok": True, "merge": [], "split": [], "strand": []}
+    attr = {"windows": ("windows", "_validate_windows"), "gene_names": ("gene_names", "_validate_gene_names"), "chromosome": ("chromosome_id", "_validate_chromosome")}
+    for kind, a, b in req["merge"]:
+        field, meth = attr[kind]
+        me = MergeData.__new__(MergeData)
+        setattr(me, field, a)
+        other = types.SimpleNamespace(**{field: b})
+        out["merge"].append(accepts(lambda: getattr(me, meth)(other)))
+    pp = PreProcessor.__new__(PreProcessor)
+    pp._logger = log
+    for g, t in req["split"]:
+        gf = [pd.DataFrame({"Chromosome": [c, c]}) for c in g]
+        tf = [pd.DataFrame({"Chromosome": [c]}) for c in t]
+        out["split"].append(accepts(lambda: pp._validate_split(gf, tf)))
+    for s in req["strand"]:
+        df = pd.DataFrame({"Strand": pd.Series(s, dtype=str)})
+        out["strand"].append(accepts(lambda: check_strand(df, log)))
+    return out
+
+
+OPS = {"pipeline": op_pipeline, "preprocess": op_preprocess, "revise.unit": op_revise_unit, "guards.unit": op_guards_unit}
 
 
 def main():
